@@ -1,10 +1,11 @@
 """C01 - no PFCP datagram can crash or wedge the agent."""
 from props.l1common import *
+from props.l1props import model_correspondence
 import l1
 import l1mut
 import pfcp as P
 
-TARGETS = ["Props/C01.vo"]
+TARGETS = ["Props/C01.vo", "Run/Eval_L1.vo"]
 
 
 def run(tier, seed, replay=None):
@@ -44,6 +45,10 @@ def run(tier, seed, replay=None):
         for sig, msg, i in res[:1]:
             ck.fail(sig, msg, {"input": case, "intents": intents, "inject": inj, "probe_start": ps, "key": [str(x) for x in key],
                                "impl_event": ob[i] if i < len(ob) else None})
+    # the model takes the datagram as go-pfcp decodes it, so it is evaluated on mutated and garbage datagrams alike
+    sub = list(zip([c[1] for c in cases], obs))
+    rng.shuffle(sub)
+    model_correspondence(ck, sub, limit=(700 if tier == "quick" else 6000), name="C01")
     agg = {}
     for k, v in dist.items():
         kk = k.split("/")[0] + "/" + k.split("/")[1] + ":" + k.split(":")[-1]
